@@ -218,6 +218,40 @@ def run(ctx):
             ctx.count("malformed_rejected")
         except Exception as e:               # noqa: BLE001
             bad.append(("crash:malformed", "topology name %r raised %r" % (topo, e), {"topology": topo, "nodes": nodes}))
+    # decorated edge counts: the count is what Python's int() reads from the WHOLE suffix (sign, spaces and underscores as int() treats them), never a
+    # digit string fished out of it; anything int() rejects or that lies outside [n-1, n(n-1)/2] must be refused
+    for n in (4, 5, 7):
+        nd = rng.sample(POOL, n)
+        maxe = n * (n - 1) // 2
+        good = sorted({n - 1, n, maxe - 1, maxe})
+        sufs = []
+        for k in good:
+            sufs += ["-%d" % k, "+%d" % k, " %d" % k, "%d " % k, "2.%d" % k, "%d.0" % k, "x%d" % k, "%dx" % k, "0x%d" % k, "1e%d" % k, "--%d" % k,
+                     "%d_" % k, "_%d" % k, "0%d" % k, "%d%d" % (k, k)]
+        for suf in sufs:
+            topo = "random_connected_" + suf
+            try:
+                want = int(suf)
+                want = want if n - 1 <= want <= maxe else None
+            except ValueError:
+                want = None
+            ctx.count("decorated_edge_counts")
+            try:
+                r = Recorder(rng.randrange(10 ** 6)).run(topo, nd)
+            except ValueError:
+                if want is not None:
+                    bad.append(("oracle:malformed", "topology name %r refused although int(%r) = %d is an admissible edge count for %d nodes" % (topo, suf, want, n),
+                                {"topology": topo, "nodes": nd}))
+                continue
+            except Exception as e:               # noqa: BLE001
+                bad.append(("crash:malformed", "topology name %r raised %r" % (topo, e), {"topology": topo, "nodes": nd}))
+                continue
+            edges = sum(len(v) for v in r.values()) // 2
+            if want is None:
+                bad.append(("oracle:malformed", "topology name %r accepted (returned a graph with %d edges over %d nodes) although %r is not an admissible edge count"
+                            % (topo, edges, n, suf), {"topology": topo, "nodes": nd, "returned": r}))
+            elif judge(nd, r, want) is not None:
+                bad.append(("oracle:malformed", "topology name %r: %s" % (topo, judge(nd, r, want)), {"topology": topo, "nodes": nd, "returned": r}))
     # the generators themselves (public module functions) must enforce the edge range too, not only the name parser
     for n in range(2, 9):
         nd = rng.sample(POOL, n) if len(POOL) >= n else list(range(n))
